@@ -63,10 +63,27 @@ type KnownFinding struct {
 	Commit      string `json:"commit,omitempty"`
 }
 
-const (
-	verifDir = "/verif"
-	repoDir  = "/repo"
+const verifDir = "/verif"
+
+// repoDir is the tree under test: /repo (always, for the registered commands).
+// VERIF_REPO points a run at a scratch worktree instead (used only to try the
+// checks against seeded changes in parallel without touching /repo); such a
+// run must also set VERIF_OUT so that it does not overwrite evidence/replays.
+var (
+	repoDir = "/repo"
+	outDir  = verifDir
 )
+
+func init() {
+	if r := os.Getenv("VERIF_REPO"); r != "" {
+		repoDir = r
+		outDir = os.Getenv("VERIF_OUT")
+		if outDir == "" {
+			fmt.Fprintln(os.Stderr, "VERIF_REPO needs VERIF_OUT")
+			os.Exit(2)
+		}
+	}
+}
 
 func main() {
 	if len(os.Args) < 2 {
@@ -273,7 +290,7 @@ func check(id, tier string) int {
 	exit := 0
 	for i, v := range newViolations {
 		hc := findHarness(pc, v.Harness)
-		path := filepath.Join(verifDir, "replays", fmt.Sprintf("%s-%s-%d.json", id, sanitize(v.Harness+"-"+v.Label), i))
+		path := filepath.Join(outDir, "replays", fmt.Sprintf("%s-%s-%d.json", id, sanitize(v.Harness+"-"+v.Label), i))
 		v.ReplayPath = path
 		writeReplay(path, pc, hc, tier, v)
 		if hc != nil && hc.NativeReplay {
@@ -611,8 +628,8 @@ func writeEvidence(pc *PropCfg, tier string, seed int, cfgs []HarnessCfg, result
 		"coverage": cov, "assumptions": pc.Assumptions, "wall_s": round2(wall.Seconds()), "violations": nviol,
 	}
 	data, _ := json.MarshalIndent(ev, "", " ")
-	os.MkdirAll(filepath.Join(verifDir, "evidence"), 0o755)
-	os.WriteFile(filepath.Join(verifDir, "evidence", pc.Property+".json"), data, 0o644)
+	os.MkdirAll(filepath.Join(outDir, "evidence"), 0o755)
+	os.WriteFile(filepath.Join(outDir, "evidence", pc.Property+".json"), data, 0o644)
 }
 
 func round2(f float64) float64 { return float64(int(f*100+0.5)) / 100 }
